@@ -231,7 +231,7 @@ Proof.
   - intros m0 b0 H. destruct (upd_cases (mbuf s) m None m0) as [[-> E]|[Hn E]]; rewrite E in H; [discriminate|].
     eapply i_mbuf_lt; eassumption.
   - intros m0 Ha. destruct (Nat.eq_dec m0 m) as [->|Hn]; [rewrite upd_same in Ha; discriminate|].
-    rewrite upd_other in * by assumption. now apply i_mbuf_some.
+    rewrite upd_other in Ha by assumption. rewrite upd_other by assumption. now apply i_mbuf_some.
   - intros b0 m0. destruct (Nat.eq_dec m0 m) as [->|Hnm]; [rewrite !upd_same|rewrite !upd_other by assumption; apply i_bring].
     rewrite i_bring. split; [intros (_ & _ & H); congruence|intros (H & _); discriminate].
   - intros b Ha Hr. apply (held_upd_eq hb _ _ _ _ Ht b); [now rewrite Hc|now apply i_bheld].
